@@ -235,7 +235,9 @@ P('C13', claimed=True, level='other',
               'Pn (same pattern every pass); Plen (one draw per pass, exactly that value yielded, quiet end); '
               'Pconst (running sum grows by exactly the yielded value, last value = total - running sum in both '
               'endings; telescoping lemma: the values add up to the total); Pstutter (one value and one count '
-              'per outer pass, a copy of that value per inner pass). Every other pattern is decided by run-time '
+              'per outer pass, a copy of that value per inner pass); Pcollect (func(value, input) yielded), '
+              'Pselect/Preject (the value itself yielded iff the function says True/False, nothing otherwise), '
+              'Pwhile (one embed per pass while the test holds). Every other pattern is decided by run-time '
               'contracts: all pattern expressions of depth <= 2 over 27 constructors and ~100k seeded random '
               'deeper ones are streamed and compared with an independent compositional list semantics; '
               'immutability and seeded determinism/support of random patterns are contracts of their own.'),
@@ -290,7 +292,10 @@ P('C17', claimed=True, level='other', contracts=['base_netaddr_bind', 'synth_nod
               'not raise (any exception class); the straight-line node commands send exactly the reference '
               'command once, through the object\'s own server address, with its own node id (and the target\'s), '
               'and change nothing of the object but the listed field: Node.free/run/trace/move_before/move_after/'
-              'move_to_head/move_to_tail, AbstractGroup._move_node_to_head/_tail/free_all/deep_free/dump_tree. '
+              'move_to_head/move_to_tail, AbstractGroup._move_node_to_head/_tail/free_all/deep_free/dump_tree; the '
+              'sending constructors AbstractGroup.__init__ and Synth.__init__ take ONE fresh id from the target\'s '
+              'server, join the right group (target for head/tail, the target\'s group otherwise) and send one '
+              'creation command in the reference order (creation_cmd | /s_new name, id, add action, target id, args). '
               'Bounded: every message emitted at the single OSC choke point during histories of client-object '
               'operations is checked against grammars written from the Server Command Reference, for '
               'ownership of the ids it mentions, creation/free pairing and bind() atomicity.'),
